@@ -1275,6 +1275,9 @@ def _hex_to_rgb_or_rgba(color, alpha_float=True):
     """
     if color[:1] == '#':
         color = color[1:]
+    if not all(c in '0123456789abcdefABCDEF' for c in color):
+        # int(x, 16) would accept signs, blanks, underscores and non-ASCII digits as well
+        raise ValueError(f'Input #{color} is not in #RRGGBB nor in #RRGGBBAA format')
     if 2 < len(color) < 5:
         # Expand RGB -> RRGGBB and RGBA -> RRGGBBAA
         color = ''.join([color[i] * 2 for i in range(len(color))])
